@@ -175,3 +175,32 @@ def gen_juniper_valid(V, repo):
     L = rx.to_re(body, False)
     subset(V, "juniper.VALID#language_subset_of_spec", L, spec)
     subset(V, "juniper.VALID#spec_subset_of_language", spec, L)
+
+
+# ---------------------------------------------------------------- catch-all hash patterns (C07)
+def gen_catchall(V, repo):
+    """C07: "a standalone $1$ / $9$ hash-shaped token ... is replaced whatever keywords surround it".  The catch-all
+    entries of extra_password_regexes must cover every hash-shaped token as a whole: the language of well-formed $9$
+    strings (resp. md5-crypt strings) is included in the language of the entry's pattern, whose captured group is the
+    whole match."""
+    from contracts.juniper import ALPHABET
+    table = repo.const("netconan.sensitive_item_removal", "extra_password_regexes")
+    flat = [(p, g) for grp in table for (p, g) in grp]
+    A = z3.Union(*[lit(c) for c in ALPHABET])
+    B64 = z3.Union(z3.Range("0", "9"), z3.Range("a", "z"), z3.Range("A", "Z"), lit("."), lit("/"))
+    specs = {"$9$": z3.Concat(lit("$9$"), z3.Loop(A, 4, 4), z3.Star(A)),
+             "$1$": z3.Concat(lit("$1$"), z3.Loop(B64, 0, 8), lit("$"), z3.Loop(B64, 22, 22))}
+    for magic, spec in specs.items():
+        esc = magic.replace("$", "\\$")
+        cands = [(p, g) for p, g in flat if esc in p and "(?<=" not in p]
+        emit_bool(V, "catchall[%s]#present_with_group_1" % magic, len(cands) == 1 and cands[0][1] == 1,
+                  "exactly one catch-all entry for %s tokens, capturing group 1" % magic)
+        if len(cands) != 1:
+            continue
+        P = rx.Parsed(cands[0][0], 0)
+        pre, body, post = P.split_context()
+        emit_bool(V, "catchall[%s]#no_context_assertions" % magic, not pre and not post, "")
+        L = rx.to_re(body, False)
+        subset(V, "catchall[%s]#covers_every_hash_shaped_token" % magic, spec, L)
+        # with an opening quote in front as well
+        subset(V, "catchall[%s]#covers_quoted_token" % magic, z3.Concat(lit('"'), spec), L)
